@@ -69,6 +69,28 @@ func c14Cases(thorough bool) []c14Case {
 			}
 		}
 	}
+	// the same with maps whose element type is concrete, not interface{}: *int elements (nil = error), []int elements (v.0 errors on an
+	// empty one), struct elements holding an interface
+	for n := 2; n <= 3; n++ {
+		for _, pat := range patterns(3, n)[lenPrefix(3, n):] {
+			two := NInt(KInt, false, 2)
+			var pk, lk, sk []*Node
+			for i, p := range pat {
+				k := str("k" + strconv.Itoa(i))
+				pk = append(pk, k, pick(p, NPtr(one), NPtr(two), NNilPtr(TInt)))
+				lk = append(lk, k, pick(p, NSlice(TInt, one), NSlice(TInt, two), NSlice(TInt)))
+				sk = append(sk, k, NStruct(F{Name: "V", V: NAny(pick(p, one, two, NNilAny()))}))
+			}
+			ptrT := &Type{K: KPtr, Elem: TInt}
+			for _, q := range []string{"any", "all"} {
+				out = append(out,
+					c14Case{q + " m as k, v { v == 1 }", NMap(TStr, TAny, str("m"), NMap(TStr, ptrT, pk...)), "typed-elements(*int)"},
+					c14Case{q + " m as _, v { v.0 == 1 }", NMap(TStr, TAny, str("m"), NMap(TStr, NSlice(TInt).T, lk...)), "typed-elements([]int)"},
+					c14Case{q + " m as _, v { v.V == 1 }", NMap(TStr, TAny, str("m"), NMap(TStr, sk[1].T, sk...)), "typed-elements(struct)"},
+				)
+			}
+		}
+	}
 	// key NAMES that collide under plausible normalisations (numeric value, case folding, trimming, length, a bounded prefix, Unicode
 	// equivalence): an ordering that is only a preorder on such keys leaves their relative order to the map iteration
 	long := strings.Repeat("k", 40)
